@@ -74,6 +74,7 @@ struct VfLoc
   const ELoc& get() const { return *(const ELoc*)buf; }
 };
 
+#define VF_LMAX (VF_NCOL + 4)
 // ---- the Db
 alignas(16) static char g_dbbuf[sizeof(Db)];
 static Db* vf_db_raw(int ncol, int nuid, int nech)
@@ -84,6 +85,9 @@ static Db* vf_db_raw(int ncol, int nuid, int nech)
   new (&db->_array) std::vector<double>(ncol * nech);
   new (&db->_uidcol) std::vector<int>(nuid);
   new (&db->_p) std::vector<PtrGeos>(VF_NELOC);
+  // storage of the lists that may be non-empty is reserved once, so that every configuration works in
+  // the same buffers (no reallocation inside the kernels: stated in the registry under `out`)
+  for (int t = 0; t < VF_NT; t++) db->_p[t]._r.reserve(VF_LMAX);
   return db;
 }
 
@@ -97,7 +101,6 @@ struct VfTab
   int len[VF_NELOC];
   int lst[VF_NELOC][VF_NCOL + 4];
 };
-#define VF_LMAX (VF_NCOL + 4)
 // returns false when a table is larger than the reference model can hold (asserted by callers)
 static bool vf_snapshot(const Db* db, VfTab& s)
 {
@@ -122,32 +125,65 @@ static bool vf_snapshot(const Db* db, VfTab& s)
 }
 
 // Arbitrary tables satisfying the representation invariant I.  All symbolic inputs are drawn here,
-// unconditionally and before any configuration-dependent code:
-//   _uidcol maps exactly VF_NCOL identifiers one-to-one onto 0..VF_NCOL-1, all others to -1;
-//   g_pool is an arbitrary enumeration of the live identifiers (pairwise distinct): the role lists of a
-//   configuration are consecutive pieces of it, so they hold live, pairwise distinct identifiers.
+// unconditionally and before any configuration-dependent code, and the state is *constructed* from them
+// (no assumption can reject a draw, so the translator validation exercises real executions):
+//   g_uoc   arbitrary one-to-one assignment column -> identifier; _uidcol is its inverse, -1 elsewhere
+//   g_pool  arbitrary enumeration of the live identifiers; the role lists of a configuration are
+//           consecutive pieces of it, hence hold live, pairwise distinct identifiers.
+// vf_injection: n pairwise distinct values in [0,m), every such sequence is produced (Lehmer code), branch-free.
+static void vf_injection(int* out, int n, int m)
+{
+  int sorted[VF_NUID + 1];
+  for (int i = 0; i < n; i++)
+  {
+    int x = vf_range(0, m - 1 - i);
+    for (int j = 0; j < i; j++) x = (x >= sorted[j]) ? x + 1 : x; // skip the values already taken (ascending)
+    out[i] = x;
+    int v = x;
+    for (int j = 0; j < i; j++)
+    {
+      int lo = sorted[j] < v ? sorted[j] : v;
+      int hi = sorted[j] < v ? v : sorted[j];
+      sorted[j] = lo;
+      v = hi;
+    }
+    sorted[i] = v;
+  }
+}
+static int g_uoc[VF_NCOL + 1];
 static int g_pool[VF_NCOL + 1];
 static Db* vf_db_tables()
 {
   Db* db = vf_db_raw(VF_NCOL, VF_NUID, VF_NECH);
-  int live = 0;
+  vf_injection(g_uoc, VF_NCOL, VF_NUID);
   for (int u = 0; u < VF_NUID; u++)
   {
-    int c = vf_range(-1, VF_NCOL - 1);
-    for (int v = 0; v < u; v++) vf_assume(c < 0 || db->_uidcol[v] != c);
+    int c = -1;
+    for (int k = 0; k < VF_NCOL; k++) c = (g_uoc[k] == u) ? k : c;
     db->_uidcol[u] = c;
-    if (c >= 0) live++;
   }
-  vf_assume(live == VF_NCOL);
   for (int i = 0; i < VF_NCOL * VF_NECH; i++) db->_array[i] = vf_finite_double();
+  int perm[VF_NCOL + 1];
+  vf_injection(perm, VF_NCOL, VF_NCOL);
   for (int i = 0; i < VF_NCOL; i++)
   {
-    int e = vf_range(0, VF_NUID - 1);
-    vf_assume(db->_uidcol[e] >= 0);
-    for (int j = 0; j < i; j++) vf_assume(g_pool[j] != e);
+    int e = g_uoc[0];
+    for (int k = 1; k < VF_NCOL; k++) e = (perm[i] == k) ? g_uoc[k] : e;
     g_pool[i] = e;
   }
   return db;
+}
+// the r-th deleted identifier (r = 0..VF_NUID-VF_NCOL-1)
+static int vf_dead_uid(const Db* db, int r)
+{
+  int res = -1, cnt = 0;
+  for (int u = 0; u < VF_NUID; u++)
+  {
+    bool dead = db->_uidcol[u] < 0;
+    res = (dead && cnt == r) ? u : res;
+    cnt = dead ? cnt + 1 : cnt;
+  }
+  return res;
 }
 // role lists of types 0..VF_NT-1 with lengths l[] taken from the pool (types >= VF_NT stay empty)
 static void vf_db_lists(Db* db, const int* l)
@@ -160,29 +196,44 @@ static void vf_db_lists(Db* db, const int* l)
   }
 }
 
+// the same lists written into a snapshot (reference side: does not read the Db)
+static void vf_tab_lists(VfTab& s, const int* l)
+{
+  int n = 0;
+  for (int t = 0; t < VF_NELOC; t++)
+  {
+    s.len[t] = t < VF_NT ? l[t] : 0;
+    for (int i = 0; i < s.len[t]; i++) s.lst[t][i] = g_pool[n++];
+  }
+}
+
 // I(post) clause by clause on a snapshot; ids are passed so that every kernel names its own obligations
+// (written branch-free: the values are symbolic, a branch would fork the executor)
 static bool vf_lists_live(const VfTab& s)
 {
   bool ok = true;
-  int uc[VF_NUID + 1]; // small object of its own: it is indexed by symbolic identifiers
-  for (int u = 0; u < s.nuid; u++) uc[u] = s.uidcol[u];
   for (int t = 0; t < VF_NELOC; t++)
     for (int i = 0; i < s.len[t]; i++)
     {
       int e = s.lst[t][i];
-      if (e < 0 || e >= s.nuid) ok = false;
-      else if (uc[e] < 0) ok = false;
+      ok = (e >= 0 && e < s.nuid) ? ok : false;
+      for (int u = 0; u < s.nuid; u++)
+      {
+        int c = s.uidcol[u];
+        ok = (e == u && c < 0) ? false : ok;
+      }
     }
   return ok;
 }
 static bool vf_lists_distinct(const VfTab& s)
 {
   bool ok = true;
+  int all[VF_NELOC * VF_LMAX];
+  int n = 0;
   for (int t = 0; t < VF_NELOC; t++)
-    for (int i = 0; i < s.len[t]; i++)
-      for (int t2 = 0; t2 <= t; t2++)
-        for (int i2 = 0; i2 < (t2 < t ? s.len[t2] : i); i2++)
-          if (s.lst[t2][i2] == s.lst[t][i]) ok = false;
+    for (int i = 0; i < s.len[t]; i++) all[n++] = s.lst[t][i];
+  for (int i = 0; i < n; i++)
+    for (int j = 0; j < i; j++) ok = (all[i] != all[j]) ? ok : false;
   return ok;
 }
 static bool vf_uidcol_bijective(const VfTab& s)
@@ -203,10 +254,18 @@ static bool vf_same_uid_and_values(const VfTab& a, const VfTab& b)
 {
   bool ok = a.ncol == b.ncol && a.nech == b.nech && a.nuid == b.nuid && a.narr == b.narr;
   if (!ok) return false;
-  for (int u = 0; u < a.nuid; u++)
-    if (a.uidcol[u] != b.uidcol[u]) ok = false;
-  for (int i = 0; i < a.narr; i++)
-    if (a.arr[i] != b.arr[i]) ok = false;
+  for (int u = 0; u < a.nuid; u++) ok = (a.uidcol[u] == b.uidcol[u]) ? ok : false;
+  for (int i = 0; i < a.narr; i++) ok = (a.arr[i] == b.arr[i]) ? ok : false;
+  return ok;
+}
+static bool vf_same_lists(const VfTab& a, const VfTab& b)
+{
+  bool ok = true;
+  for (int j = 0; j < VF_NELOC; j++)
+  {
+    if (a.len[j] != b.len[j]) { ok = false; continue; }
+    for (int i = 0; i < a.len[j]; i++) ok = (a.lst[j][i] == b.lst[j][i]) ? ok : false;
+  }
   return ok;
 }
 
